@@ -120,7 +120,10 @@ def check(ctx):
             if st_ != HOLDS: bad = (st_, why)
         if bad: ctx.ob("R3-solvers-agree", c, bad[0], "analytic and numeric residuals differ " + bad[1], "")
         else: ctx.holds("R3-solvers-agree", c, "both solvers return the same normal form", "")
-    # ---- R5 one input: MISO == SISO
+    # ---- R5 the entries of the spectral matrix come from different ltf calls (a channel alone, a channel in several pairs): they are one
+    #      consistent matrix only if a channel's auto statistic does not depend on its partner / position and the pair statistics are Hermitian
+    from ..kernels import KernelEval, check_pair_identities
+    check_pair_identities(ctx, KernelEval(repo), rule="R5-consistent-spectral-matrix")
     ctx.need("ltf-call configurations", sum(1 for o in ctx.obs if o["rule"] == "R4-one-configuration"), 7)
     ctx.trust("E4 partial evaluation of __getattr__ (cells Gxx, Gyy, Gxy, GyySx)", "sympy.solve / numpy.linalg.solve return the exact solution of a square linear system (Cramer)",
               "numpy.linalg.pinv(T) = T^-1 for invertible T", "Schur complement of a positive semi-definite Hermitian matrix lies in [0, S00], vanishes when the last row is a combination of the others, "
